@@ -35,6 +35,8 @@ pub(crate) mod push_validator_addrs;
 pub(crate) mod testonly;
 #[cfg(test)]
 mod tests;
+#[cfg(feature = "verif_hooks")]
+pub mod verif;
 
 impl Capability {
     /// Converts capability to `mux::CapabilityId`.
